@@ -46,6 +46,8 @@ class Contract:
         self.opts = opts
         self.requires, self.ensures, self.canaries, self.lemmas = [], [], [], []
         self.skolem_ensures = []
+        self.may_modify = []
+        self.globals_used = []    # (module-level name, type expr): read by the function, symbolic at entry
         self.delegates = None     # (callee qualname, {callee param: expr over own params})
         self.sets = []            # (attribute name, expr): self.<name> is <expr> after the call (constructors)
         self.raises = []          # Clause(kind raises, expr=when, name=exc)
@@ -98,6 +100,10 @@ class Contract:
                 self.loops[label] = LoopRule(label, kind, kw)
             elif fn == "field":
                 self.fields[ast.literal_eval(call.args[0])] = call.args[1]
+            elif fn == "modifies":
+                self.may_modify = [ast.literal_eval(a) for a in call.args]
+            elif fn == "uses_global":
+                self.globals_used.append((ast.literal_eval(call.args[0]), call.args[1]))
             elif fn == "delegates":
                 self.delegates = (ast.literal_eval(call.args[0]), kw)
             elif fn == "sets":
@@ -204,7 +210,7 @@ class Contract:
         definitional = self.returns_expr is not None and "assume_only" in self.returns_expr.kw
         for cl in ([] if definitional else self.ensures) + self.skolem_ensures:
             t = interp.as_bool_term(self.eval_spec(interp, cl.expr, env), node)
-            ctx.assume(t, None)
+            ctx.assume(t, None, know=True)
         return res
 
 
